@@ -230,7 +230,7 @@ func evalC16(c c16Case, o *Obs) error {
 	}
 	var hashPtr *chainhash.Hash
 	var bytesPtr *byte
-	height := bchutil.BlockHeightUnknown
+	height := int32(-1) // the documented "unknown" height (literal on purpose: the constant is part of what is checked)
 	sawTx, sawTransactions, sparse, oor := false, false, false, false
 	var siblings []*bchutil.Block
 	var siblingRaw [][]byte
@@ -506,7 +506,7 @@ func evalC16Tx(c c16TxCase, o *Obs) error {
 	o.NT()
 	o.Class("C16:tx-ctor=%d", c.Ctor)
 	want := m.TxHash()
-	idx := bchutil.TxIndexUnknown
+	idx := -1 // the documented "unknown" index (literal on purpose)
 	var hp *chainhash.Hash
 	for step, op := range append(c.Ops, c16Op{"hash", 0}, c16Op{"msgtx", 0}) {
 		switch op.Op {
